@@ -30,8 +30,13 @@ func main() {
 		selftest  = flag.Bool("selftest", false, "run the oracle self-test first")
 		workers   = flag.Int("workers", 0, "worker goroutines (0 = GOMAXPROCS)")
 		list      = flag.Bool("list", false, "list properties and hook groups")
+		cold      = flag.String("cold", "", "cold-start child: perform this one operation as the first library call and print the result")
 	)
 	flag.Parse()
+	if *cold != "" {
+		props.ColdMain(*cold)
+		return
+	}
 	// The oracle allocates many small big.Ints; on this VM frequent GC cycles
 	// with many Ps are very expensive (futex storms), memory is plentiful.
 	// First-touch page faults cost ~0.3 ms in this VM and GC cycles on a tiny
